@@ -95,7 +95,15 @@ SPECIAL_KEYS = ["T", "F", "N", "D0000000000000000", "D8000000000000000", "D7ff00
                 "R( I0 )", "R( L0 )", "R( D0000000000000000 )", "R( D8000000000000000 )", "R( F )", "R( U0 )", "R( E80000000 )",
                 "R( Z0000000000000000,0000000000000000 )", "R( Z8000000000000000,0000000000000000 )", "c( C6d.6e I0 )", "c( C6d.6e L0 )",
                 "c( C6d.6e D8000000000000000 )", "t( R( I0 ) )", "t( R( L0 ) )", "R( R( L0 ) )", "R( R( I0 ) )", "R( t( ) )", "R( t0 )",
-                "t0", "t( t0 )", "t( t0 I1 )", "t( t( ) I1 )", "c( C6d.6e t0 )", "c( C6d.6e t( ) )", "R( N )", "R( S- )", "I0", "L0"]
+                "t0", "t( t0 )", "t( t0 I1 )", "t( t( ) I1 )", "c( C6d.6e t0 )", "c( C6d.6e t( ) )", "R( N )", "R( S- )", "I0", "L0",
+                # a NaN inside a tuple / struct-typed key: such a key equals nothing, not even itself (the same object on both sides)
+                "t( D7ff8000000000001 )", "t( D7ff8000000000001 S61 )", "t( I1 D7ff8000000000001 )", "R( D7ff8000000000001 )", "c( C6d.6e D7ff8000000000001 )",
+                "t( E7fc00000 )", "t( Z7ff8000000000001,0000000000000000 )", "t( t( D7ff8000000000001 ) )",
+                # the edges of int64 / uint64 in each representation, where a conversion can wrap
+                "I9223372036854775807", "U9223372036854775807", "V0:9223372036854775807", "I-9223372036854775808", "L9223372036854775808",
+                "U9223372036854775808", "D43e0000000000000", "Dc3e0000000000000", "L-9223372036854775808", "L9223372036854775807",
+                "U18446744073709551615", "I-1", "L18446744073709551615", "L18446744073709551616", "Z43e0000000000000,0000000000000000",
+                "Zc3f0000000000000,0000000000000000", "L-18446744073709551616", "Zfff0000000000000,0000000000000000"]
 
 
 def rand_key(rng, depth=0):
@@ -229,7 +237,11 @@ NESTED = ["t( I1 t( S61 ) )", "t( I1 t( B61 ) )", "t( I1 t( Y61 ) )", "R( S61 )"
           "t( )", "t0", "R( t( ) )", "R( t0 )", "t( t0 I1 )", "t( t( ) L1 )", "R( I0 )", "R( L0 )",
           # a bool inside a tuple / struct-typed key against the equal int / float / long at the same place; Go's plain int and uint
           "t( T S61 )", "t( F )", "t( I0 )", "t( D0000000000000000 )", "R( T )", "R( I1 )", "R( D3ff0000000000000 )", "t( t( T ) )", "t( t( L1 ) )",
-          "c( C6d.6e T )", "c( C6d.6e I1 )", "V0:1", "Q0:1", "t( V0:1 S61 )", "V0:0", "t( V0:7 )", "t( I7 )"]
+          "c( C6d.6e T )", "c( C6d.6e I1 )", "V0:1", "Q0:1", "t( V0:1 S61 )", "V0:0", "t( V0:7 )", "t( I7 )",
+          # the edges of int64 / uint64 in each representation (a conversion between them can wrap exactly here)
+          "I9223372036854775807", "U9223372036854775807", "I-9223372036854775808", "L9223372036854775808", "U9223372036854775808",
+          "D43e0000000000000", "L-9223372036854775808", "t( I9223372036854775807 )", "t( U9223372036854775807 )", "I-1", "U18446744073709551615",
+          "L18446744073709551615", "t( I-9223372036854775808 S61 )", "t( L9223372036854775808 S61 )"]
 
 
 def ref_history(ops):
